@@ -28,6 +28,8 @@ T9 = {
     "fileio/write_bin.h": ["write_bin"],
     "fileio/write_wdc.cpp": [],
     "core/Macros.cpp": ["macros_expand_params"],
+    "core/tokens.cpp": ["tokens_get", "tokens_unget_char"],
+    "core/tokens.h": ["tokens_get", "tokens_unget_char"],
     "fileio/read_hex.cpp": ["get_hex"],
     "core/Macros.h": ["macros_expand_params"],
 }
